@@ -132,4 +132,25 @@ Fixpoint dedup (l : list (list N)) : list (list N) :=
 Definition distinct_nonempty_prefixes (pvs : list (list N * V)) : list (list N) :=
   dedup (flat_map (fun pv => prefixes_of (fst pv)) pvs).
 
+(* C10: what construction must answer, on the bare collection (documented size limits aside):
+   None = must succeed; Some k = must return error kind k.  The first offending entry in input
+   order decides between an empty pattern and a repeat. *)
+Fixpoint first_offence (seen : list (list N)) (ps : list (list N)) : option errkind :=
+  match ps with
+  | [] => None
+  | p :: r =>
+    if list_eqb p [] then Some InvalidArgument
+    else if existsb (list_eqb p) seen then Some DuplicatePattern
+    else first_offence (p :: seen) r
+  end.
+Definition spec_build_error (ps : list (list N)) : option errkind :=
+  match ps with
+  | [] => Some InvalidArgument
+  | _ => first_offence [] ps
+  end.
+(* the bare-pattern entry point: every input position must convert to the value type first *)
+Definition spec_build_error_conv (conv : nat -> option V) (ps : list (list N)) : option errkind :=
+  if forallb (fun i => isSome (conv i)) (seq 0 (length ps)) then spec_build_error ps
+  else Some InvalidConversion.
+
 End Spec.
